@@ -394,6 +394,12 @@ def extra(repo, reg, tier, seed):
                       mode="bounded", func=f"{PARSER}.FortranFile.apply_change", witness=w, confirmed=True if w else None,
                       detail="bounded: edit/revert and twin-document histories; the proofs model lists by value, so "
                              "sharing of the line list between calls or documents is checked natively"))
+    w = _open_histories()
+    items.append(Item("C02/session/open_close_histories", "refuted" if w else "bounded-ok", "native-run(bounded)", 0.0,
+                      mode="bounded", func="fortls.langserver.LangServer.serve_onOpen", witness=w, confirmed=True if w else None,
+                      detail="bounded: didOpen carrying a text that differs from the file on disk, didOpen of a file that does "
+                             "not exist, ranged edits after each, close without saving and reopen: the server's lines equal "
+                             "the client model's after every step"))
     # the axioms the proofs use must hold of the native spec function too (consistency of the axiomatisation)
     ok = True
     for ln in range(7):
@@ -408,6 +414,58 @@ def extra(repo, reg, tier, seed):
                       detail="axioms lines.* evaluated on the native spec function, strings up to length 6",
                       mode="bounded"))
     return items
+
+
+def _open_histories():
+    """Histories around didOpen/didClose; the client model is the text the editor shows."""
+    from replay.harness import Workspace, make_server
+    from fortls.jsonrpc import path_to_uri
+    disk = "program a\nend program a\n"
+    unsaved = "program a\n  integer :: restored\nend program a\n"
+    ins = {"range": {"start": {"line": 1, "character": 0}, "end": {"line": 1, "character": 0}}, "text": "x"}
+    ins2 = {"range": {"start": {"line": 0, "character": 9}, "end": {"line": 0, "character": 9}}, "text": " ! c"}
+    histories = {
+        "open_with_unsaved_text": [("open", "a.f90", unsaved)],
+        "open_with_disk_text": [("open", "a.f90", disk)],
+        "open_missing_file_with_text_then_edit": [("open", "n.f90", "program n\nend program n\n"), ("change", "n.f90", ins)],
+        "open_unsaved_then_edit": [("open", "a.f90", unsaved), ("change", "a.f90", ins)],
+        "edit_close_reopen_from_disk": [("open", "a.f90", None), ("change", "a.f90", ins2), ("close", "a.f90", None), ("open", "a.f90", None)],
+        "edit_close_reopen_with_text": [("open", "a.f90", None), ("change", "a.f90", ins2), ("close", "a.f90", None), ("open", "a.f90", disk)],
+        "open_without_text": [("open", "a.f90", None), ("change", "a.f90", ins)],
+    }
+    for hname, steps in histories.items():
+        ws = Workspace({"a.f90": disk})
+        try:
+            srv, rw = make_server()
+            srv.nthreads = 1
+            srv.handle({"jsonrpc": "2.0", "id": 0, "method": "initialize", "params": {"rootUri": path_to_uri(ws.root), "rootPath": ws.root}})
+            client = {}
+            for op, name, arg in steps:
+                uri = ws.uri(name)
+                if op == "open":
+                    td = {"uri": uri}
+                    if arg is not None:
+                        td["text"] = arg
+                        client[name] = native_lines(arg)
+                    else:
+                        client[name] = native_lines(disk)
+                    srv.handle({"jsonrpc": "2.0", "method": "textDocument/didOpen", "params": {"textDocument": td}})
+                elif op == "change":
+                    client[name] = native_apply(client[name], arg)
+                    srv.handle({"jsonrpc": "2.0", "method": "textDocument/didChange",
+                                "params": {"textDocument": {"uri": uri}, "contentChanges": [arg]}})
+                elif op == "close":
+                    srv.handle({"jsonrpc": "2.0", "method": "textDocument/didClose", "params": {"textDocument": {"uri": uri}}})
+                    client.pop(name, None)
+                    continue
+                fobj = srv.workspace.get(ws.path(name))
+                got = list(fobj.contents_split) if fobj is not None else None
+                if got != client[name]:
+                    return {"history": hname, "steps": [(o, n_) for o, n_, _ in steps], "after": op, "file": name,
+                            "client_text": client[name], "server_text": got}
+        finally:
+            ws.close()
+    return None
 
 
 def _aliasing_scenarios():
